@@ -684,6 +684,12 @@ def process_template(template_path, repo_root, include_dirs=()):
             emit(extract_enum(repo, tk[1], tk[2], items, kv['noderive'].split(',') if 'noderive' in kv else None))
             i += 1
             continue
+        if s.startswith('//@lemma '):
+            tk = s.split()
+            kv, _ = parse_kv(tk[2:])
+            items.append({'kind': 'lemma', 'name': tk[1], 'props': kv.get('props', '').split(',') if kv.get('props') else []})
+            i += 1
+            continue
         if s.startswith('//@type '):
             tk = s.split()
             emit(extract_type(repo, tk[1], tk[2], items))
